@@ -35,7 +35,7 @@ Definition event (v : variant) (reqs : Z -> req) (s : state Z) (t : Z) : Z * Z *
   | W_bend => (6, gen th, 0)
   | W_rel => (7, 0, 0)
   | V_acq => (8, 0, 0)
-  | V_val => (9, match reqs t with RValidate ok _ => b2z ok | _ => -9 end, 0)
+  | V_val => (9, match reqs t with RValidate ok _ => b2z ok | RValidateX _ => -1 | _ => -9 end, 0)
   | V_log => (10, enc (errlog s), 0)
   | V_rel => (11, 0, 0)
   | G_get => (12, k, b2z (negb (is_none (cache s k))))
@@ -91,6 +91,7 @@ Definition resp_eqb (x y : resp Z) : bool :=
   | PWsdl a, PWsdl b => optz_eqb a b
   | PValid, PValid => true
   | PFault a, PFault b => optz_eqb a b
+  | PCrash, PCrash => true
   | PVals a, PVals b => list_eqb Z.eqb a b
   | _, _ => false
   end.
